@@ -565,14 +565,12 @@ class Mutations:
         # Need to reinitialize respective optimizer if mutated learning rate
         if mutate_attr in individual.get_lr_names():
             optimizer_configs = individual.registry.optimizers
-            to_reinit = [
-                opt_config
-                for opt_config in optimizer_configs
-                if mutate_attr == opt_config.lr
-            ][0]
-            self.reinit_opt(
-                individual, optimizer=to_reinit
-            )  # Reinitialise optimizer if new learning rate
+            for opt_config in optimizer_configs:
+                # Several optimizers may use the same learning rate (e.g. twin critics)
+                if mutate_attr == opt_config.lr:
+                    self.reinit_opt(
+                        individual, optimizer=opt_config
+                    )  # Reinitialise optimizer if new learning rate
 
         individual.mut = mutate_attr
 
